@@ -104,13 +104,16 @@ def verify_function(qual, timeout_ms=60000, canary=True, shard=None):
     res["vacuity"] = []
     for name, pcs in (ex.covers.items() if shard is None or shard[0] == 0 else []):
         ok = False
+        unknown = False
         for pc in pcs:
             st, _ = L.check_valid(pc, z3.BoolVal(False), timeout_ms=timeout_ms, want_model=False)
             if st == "failed":  # hyps satisfiable
                 ok = True
                 break
-        res["vacuity"].append({"cover": name, "reachable": ok})
-        if not ok:
+            if st == "undecided":
+                unknown = True  # solver gave up: inconclusive, not a vacuity failure
+        res["vacuity"].append({"cover": name, "reachable": True if ok else (None if unknown else False)})
+        if not ok and not unknown:
             res.setdefault("vacuity_failures", []).append(name)
     if not obls:
         res.setdefault("vacuity_failures", []).append("zero obligations")
